@@ -109,8 +109,26 @@ func genUpdate(w *World, info FnInfo, cur absList, wc func() *bool) *genUpd {
 		return GenSelector(info, ids)
 	}
 	emptyData := reflect.New(info.DataType).Interface()
-	shape := w.T.Choose(10, "update-shape")
+	shape := w.T.Choose(12, "update-shape")
 	switch shape {
+	case 10:
+		if !selOK {
+			return nil
+		}
+		// a delete filter and a partial filter that each name an item by selector
+		u.shape = "delete-selector+partial-selector"
+		u.data = GenList(info, []reflect.Value{w.GenItem(info.ItemType, nil, 1, 2, nil)})
+		u.fd = MakeFilter(info, "delete", selector(), nil)
+		u.fp = MakeFilter(info, "partial", selector(), nil)
+	case 11:
+		el := nonKeyElement(w, info)
+		if el == nil || !selOK {
+			return nil
+		}
+		u.shape = "delete-elements+partial-selector"
+		u.data = GenList(info, []reflect.Value{w.GenItem(info.ItemType, nil, 1, 2, nil)})
+		u.fd = MakeFilter(info, "delete", nil, el)
+		u.fp = MakeFilter(info, "partial", selector(), nil)
 	case 9:
 		// no filter, one item without identifier: stored as it is when the update persists,
 		// "copied to all items" of the result when it does not
